@@ -53,6 +53,8 @@ pub struct G {
     pub dropped: Option<u64>,
     pub payload_end: Option<(usize, u64, Option<String>)>,
     pub pieces: Vec<usize>,
+    /// the handler is awaiting payload data since this step (cleared by the next piece / end)
+    pub payload_wait: Option<u64>,
 }
 
 #[derive(Debug, Clone)]
@@ -81,6 +83,7 @@ pub struct Ix<'a> {
     pub settle_seq: Option<u64>,
     pub fin_seq: Option<u64>,
     pub peer_close: Vec<(u64, usize, bool)>,
+    pub sessions: Vec<(u64, usize)>,
     pub last_seq: u64,
 }
 
@@ -102,6 +105,7 @@ impl<'a> Ix<'a> {
             settle_seq: None,
             fin_seq: None,
             peer_close: Vec::new(),
+            sessions: Vec::new(),
             last_seq: 0,
         };
         let mut delivered: BTreeMap<usize, usize> = BTreeMap::new();
@@ -144,15 +148,22 @@ impl<'a> Ix<'a> {
                         dropped: None,
                         payload_end: None,
                         pieces: Vec::new(),
+                        payload_wait: None,
                     });
                 }
                 Ev::GateOpen { gate, outcome } => ix.gates[*gate].open = Some((e.seq, outcome.clone())),
                 Ev::GateExit { gate, outcome } => ix.gates[*gate].exit = Some((e.seq, outcome.clone())),
                 Ev::GateDropped { gate } => ix.gates[*gate].dropped = Some(e.seq),
-                Ev::PayloadPiece { gate, len, .. } => ix.gates[*gate].pieces.push(*len),
+                Ev::PayloadWait { gate } => ix.gates[*gate].payload_wait = Some(e.seq),
+                Ev::PayloadPiece { gate, len, .. } => {
+                    ix.gates[*gate].pieces.push(*len);
+                    ix.gates[*gate].payload_wait = None;
+                }
                 Ev::PayloadEnd { gate, total, digest, err } => {
                     ix.gates[*gate].payload_end = Some((*total, *digest, err.clone()));
+                    ix.gates[*gate].payload_wait = None;
                 }
+                Ev::Session { conn } => ix.sessions.push((e.seq, *conn)),
                 Ev::Control { conn, wr, stop } => {
                     if let Some(s) = stop {
                         ix.stops.push((e.seq, *conn, s.clone()));
@@ -217,6 +228,16 @@ impl<'a> Ix<'a> {
             && !self.out.budget_hit
             && self.out.panic.is_none()
             && (self.fin_seq.is_some() || !self.conn_ended(conn))
+            && self.fault("fin") + self.fault("rst") + self.fault("wr_err") == 0
+    }
+
+    /// The cooperative closing phase was reached and nothing was injected that may end a connection
+    /// (whether the connection is still alive is for the caller to judge).
+    pub fn settled_without_faults(&self) -> bool {
+        self.out.plan.ending != Ending::Stop
+            && self.settle_seq.is_some()
+            && !self.out.budget_hit
+            && self.out.panic.is_none()
             && self.fault("fin") + self.fault("rst") + self.fault("wr_err") == 0
     }
 
@@ -822,8 +843,13 @@ pub fn check_c06(ix: &Ix<'_>, v: &mut Vec<Violation>) {
             continue;
         };
         let pid = wire.pkt.pid().unwrap_or(0);
+        // `wire.seq` is the step at which the packet left the write buffer. A deviating peer may send
+        // an ack (duplicate, unsolicited) that happens to carry the id of a send that is encoded but
+        // not flushed yet: the endpoint cannot tell it from the real one, so after a deviation the
+        // window opens when the operation starts.
+        let from = if deviated { o.start.min(wire.seq) } else { wire.seq };
         let ack = ix.sent.iter().find(|s| {
-            s.conn == 0 && s.seq > wire.seq && s.seq < *done_seq && matches!(&s.pkt, Some(p) if p.name() == want && p.pid() == Some(pid))
+            s.conn == 0 && s.seq > from && s.seq < *done_seq && matches!(&s.pkt, Some(p) if p.name() == want && p.pid() == Some(pid))
         });
         let Some(ack) = ack else {
             viol(
@@ -886,8 +912,14 @@ pub fn check_c06(ix: &Ix<'_>, v: &mut Vec<Violation>) {
                 }
             }
         }
-    } else if ix.healthy_settled(0) {
+    } else if if ix.out.plan.senders.iter().flatten().any(|o| matches!(o, crate::plan::AppOp::StreamQ0 { .. } | crate::plan::AppOp::StreamQ1 { .. })) {
+        // an application that abandons or over-runs a streamed payload ends its own connection
+        ix.healthy_settled(0)
+    } else {
+        ix.settled_without_faults()
+    } {
         // (4) a correct peer: every send whose packet reached the wire completes Ok, no Stop
+        // (judged also - above all - when the connection did end)
         if let Some((sq, _, cls)) = ix.stops.first()
             && !ix.ops.iter().any(|o| o.brief.contains("Close"))
         {
@@ -918,7 +950,18 @@ pub fn check_c14(ix: &Ix<'_>, v: &mut Vec<Violation>) {
     }
     let role = ix.role();
     let v5 = ix.ver == Ver::V5;
-    let healthy = ix.healthy_settled(0) && ix.stops.is_empty();
+    // a correct peer, no injected connection fault, no local close: nothing may end the connection,
+    // so every clause is judged whether or not the connection is still alive
+    let local_close = ix.ops.iter().any(|o| o.brief.contains("Close"));
+    let bad_ops = ix.out.plan.senders.iter().flatten().any(|o| matches!(o, crate::plan::AppOp::BadTopicTooLong { .. } | crate::plan::AppOp::BadSubscribe { .. }));
+    let healthy = ix.settled_without_faults() && !local_close && !bad_ops;
+    if healthy
+        && let Some((sq, _, cls)) = ix.stops.first()
+        && ix.ops.iter().any(|o| (o.brief.starts_with("PubQ2") || o.brief == "Release" || o.brief == "DropReceipt") && o.done.as_ref().is_none_or(|d| d.0 >= *sq))
+    {
+        viol(v, "C14", format!("C14/exchanges-cancelled-by-connection-end/{role}"), format!("the peer acknowledged everything correctly, yet the connection ended with exactly-once exchanges outstanding: {cls:?}"), *sq);
+        return;
+    }
     // every QoS2 op and its release
     for o in ix.ops.iter().filter(|o| o.brief.starts_with("PubQ2")) {
         let wire = ix.eps.iter().find(|e| e.conn == 0 && matches!(&e.pkt, Pkt::Publish(p) if op_of_topic(&p.topic) == Some((o.sender, o.op))));
@@ -1537,6 +1580,138 @@ pub fn check_c12(ix: &Ix<'_>, v: &mut Vec<Violation>) {
     }
 }
 
+
+// ------------------------------------------------------------------------------------------
+// C07: however a connection ends, it is torn down completely and exactly once
+
+pub fn check_c07(ix: &Ix<'_>, v: &mut Vec<Violation>) {
+    let role = ix.role();
+    let out = ix.out;
+    let conn = 0usize;
+    if let Some(p) = &out.panic {
+        let loc = p.rsplit(" @ ").next().unwrap_or("?");
+        viol(v, "C07", format!("C07/panic/{role}/{loc}"), format!("panic: {p}"), ix.last_seq);
+        return;
+    }
+    if out.budget_hit || out.setup_error.is_some() {
+        return;
+    }
+    if !ix.conn_ended(conn) {
+        return;
+    }
+    let session = ix.sessions.iter().find(|s| s.1 == conn).map(|s| s.0);
+    let stop = ix.stops.iter().find(|s| s.1 == conn);
+    // what ended the connection, as far as the history shows
+    let end_seq = stop
+        .map(|s| s.0)
+        .into_iter()
+        .chain(ix.conn_done.iter().filter(|c| c.1 == conn).map(|c| c.0))
+        .chain(ix.ep_closed.iter().filter(|c| c.1 == conn).map(|c| c.0))
+        .chain(ix.peer_close.iter().filter(|c| c.1 == conn).map(|c| c.0))
+        .min()
+        .unwrap_or(ix.last_seq);
+
+    // (A) exactly one Stop once the connection's services exist (more than one: monitor `stop-twice`)
+    if session.is_some() && stop.is_none() {
+        viol(v, "C07", format!("C07/no-stop/{role}"), "the connection ended after its services were created but the control service never received Stop".into(), ix.last_seq);
+    }
+    // (B) the reason class matches something that happened before the notification
+    if let Some((sq, _, class)) = stop {
+        let peer_gone_cause = ix.peer_close.iter().any(|c| c.1 == conn && c.0 <= *sq)
+            || out.hist.iter().any(|e| e.seq <= *sq && matches!(e.ev, Ev::Fault { kind: "wr_err", .. }))
+            || ix.sent.iter().any(|s| s.conn == conn && s.seq <= *sq && matches!(s.pkt, Some(Pkt::Disconnect(_))))
+            || ix.ops.iter().any(|o| o.start <= *sq && (o.brief.starts_with("Close") || o.brief.starts_with("ForceClose")))
+            || ix.eps.iter().any(|e| e.conn == conn && e.seq <= *sq && matches!(e.pkt, Pkt::Disconnect(_)));
+        let app_err_cause = ix.gates.iter().any(|g| {
+            g.conn == conn
+                && g.kind != GateKind::Control
+                && match &g.exit {
+                    Some((xs, Outcome::Err)) => xs <= sq,
+                    Some((xs, Outcome::Neg(_))) => xs <= sq && g.kind == GateKind::Publish,
+                    Some((xs, Outcome::Disconnect(_))) => xs <= sq,
+                    _ => false,
+                }
+        });
+        match class {
+            StopClass::PeerGone(_) => {
+                if !peer_gone_cause {
+                    viol(v, "C07", format!("C07/stop-reason/{role}/peer-gone-without-cause"), format!("Stop({class:?}) but the peer had not closed, nothing was closed locally and no write failed"), *sq);
+                }
+            }
+            StopClass::AppError => {
+                if !app_err_cause {
+                    viol(v, "C07", format!("C07/stop-reason/{role}/app-error-without-failing-handler"), format!("Stop({class:?}) but no handler had failed"), *sq);
+                }
+            }
+            StopClass::Protocol(_) => {}
+        }
+        // undecodable input / violation that was delivered and dispatched before anything else ended
+        // the connection must be reported as a protocol error
+        let corrupt_first = ix.sent.iter().find(|s| s.conn == conn && s.corrupt && s.delivered.is_some_and(|d| d < *sq));
+        if let Some(c) = corrupt_first
+            && !matches!(class, StopClass::Protocol(_))
+            && !peer_gone_cause
+            && !app_err_cause
+        {
+            viol(v, "C07", format!("C07/stop-reason/{role}/undecodable-input-not-protocol"), format!("undecodable input was delivered at step {:?} and nothing else had happened, yet Stop({class:?})", c.delivered), *sq);
+        }
+    }
+    // (C) the connection task completes
+    if !ix.conn_done.iter().any(|c| c.1 == conn) {
+        viol(v, "C07", format!("C07/task-not-completed/{role}"), "the connection ended but the connection task never completed".into(), ix.last_seq);
+    }
+    // (D) every started send / readiness future resolved; the ones that were pending when the
+    // connection ended resolve with an error
+    for o in &ix.ops {
+        if o.brief.starts_with("Close") || o.brief.starts_with("ForceClose") {
+            continue;
+        }
+        let kind = o.brief.split([' ', '{', '(']).next().unwrap_or("?");
+        match &o.done {
+            None => {
+                viol(v, "C07", format!("C07/op-left-waiting/{role}/{kind}"), format!("sender {} op {} ({}) started at step {} never resolved after the connection ended", o.sender, o.op, o.brief, o.start), ix.last_seq);
+            }
+            Some((dq, OpResult::Err(e))) => {
+                if *dq >= end_seq && !e.contains("Disconnected") && !e.contains("Cancelled") {
+                    viol(v, "C07", format!("C07/op-wrong-error/{role}/{kind}"), format!("sender {} op {} ({}) resolved with {e} after the connection ended", o.sender, o.op, o.brief), *dq);
+                }
+            }
+            _ => {}
+        }
+    }
+    // (E)/(G) handlers: a payload reader that was waiting observes an error; nothing is left waiting;
+    // (F) handlers are cancelled only after the Stop notification has been handled
+    let stop_handled = stop.map(|s| {
+        ix.gates
+            .iter()
+            .find(|g| g.conn == conn && g.kind == GateKind::Control)
+            .map_or(s.0, |g| g.exit.as_ref().map_or(u64::MAX, |x| x.0))
+    });
+    for g in ix.gates.iter().filter(|g| g.conn == conn && matches!(g.kind, GateKind::Publish | GateKind::Proto)) {
+        let what = match &g.desc {
+            GateDesc::Publish(p) => format!("publish handler of {:?}", p.topic),
+            GateDesc::Proto { brief, .. } => format!("protocol handler of {brief}"),
+            _ => "handler".into(),
+        };
+        if g.exit.is_none() && g.dropped.is_none() {
+            let why = if g.payload_wait.is_some() { "payload-read" } else { "other" };
+            viol(v, "C07", format!("C07/handler-left-waiting/{role}/{why}"), format!("{what} neither completed nor was cancelled after the connection ended (waiting on: {why})"), ix.last_seq);
+            continue;
+        }
+        if let Some(d) = g.dropped {
+            if g.exit.is_none() && g.payload_wait.is_some() {
+                viol(v, "C07", format!("C07/reader-not-notified/{role}"), format!("{what} was waiting for payload data when the connection ended and was cancelled without observing an error"), d);
+            }
+            if let Some(h) = stop_handled
+                && g.exit.is_none()
+                && d < h
+            {
+                viol(v, "C07", format!("C07/handler-cancelled-before-stop/{role}"), format!("{what} was cancelled at step {d}, before the Stop notification had been handled (step {})", if h == u64::MAX { "never".to_string() } else { h.to_string() }), d);
+            }
+        }
+    }
+}
+
 // ------------------------------------------------------------------------------------------
 // C16: no well-formed sequence panics or hangs an endpoint
 
@@ -1604,6 +1779,9 @@ pub fn check_all(out: &RunOut) -> Vec<Violation> {
         }
         "C16" => {
             check_c16(&ix, &mut v);
+        }
+        "C07" => {
+            check_c07(&ix, &mut v);
         }
         "C05" | "C06" | "C13" | "C14" | "C08" => {
             check_c05(&ix, &mut v);
